@@ -62,6 +62,16 @@ class FixSession(ss.Session):
         got = set(rp[1])
         if self.fixed:
             self.stats['probe:enumeration_under_fix'] += 1
+            # the unfixed view of the processor (with_fixed=False) is the original problem, whatever is fixed meanwhile
+            ru = self.call(lambda: obs_enum(self.P.get_all_discrete_x(with_fixed=False)))
+            if ru[0] != 'ok' or ru[1] is None or sorted(ru[1]) != sorted(e0):
+                self.V('unfixed-view-differs', f'fixed {self.fixed}: get_all_discrete_x(with_fixed=False) is not the '
+                                               f'enumeration of the original problem: '
+                                               f'{ru[:3] if ru[0] != "ok" or ru[1] is None else self._enum_diff(ru, ("ok", e0))}')
+            nu = self.call(lambda: int(self.P.get_n_valid_designs(with_fixed=False)))
+            if nu[0] != 'ok' or nu[1] != len(e0):
+                self.V('unfixed-view-differs', f'fixed {self.fixed}: get_n_valid_designs(with_fixed=False) = {nu[1:]} but the '
+                                               f'original problem has {len(e0)} designs')
         extra = sorted(got - allowed)
         if extra:
             self.V('restricted-not-subset', f'fixed {self.fixed}: rows {extra[:3]} are not designs of the original problem '
